@@ -444,3 +444,73 @@ pub fn record(args: &[String]) -> i32 {
     }
     0
 }
+
+/// doc-textedit --in <REPLAY file> --seed N --count K --out <ndjson of {"text":[cps], "edits":[..]}>
+/// 1-2 random CHARACTER-level edits (delete, insert, replace, transpose, duplicate, cut a span) of
+/// well-formed renderings.  Whether the result is well-formed is decided by the specification's own
+/// scanner and machine (Trace_Doc.tla in text mode), never here.
+pub fn textedit(args: &[String]) -> i32 {
+    let inp = arg_value(args, "--in").unwrap_or("-");
+    let out = arg_value(args, "--out").unwrap_or("-");
+    let seed: u64 = arg_value(args, "--seed").and_then(|s| s.parse().ok()).unwrap_or(1);
+    let count: usize = arg_value(args, "--count").and_then(|s| s.parse().ok()).unwrap_or(100);
+    let mut r = StdRng::seed_from_u64(seed);
+    let mut bases: Vec<Vec<u32>> = vec![];
+    for_each_case(inp, |case| {
+        if case["wf"] == true && case.get("src").is_none() {
+            let t: Vec<u32> = case["text"].as_array().map(|a| a.iter().filter_map(|c| c.as_u64()).map(|c| c as u32).collect()).unwrap_or_default();
+            if !t.is_empty() && t.len() <= 400 {
+                bases.push(t);
+            }
+        }
+    });
+    let mut w = open_out(out);
+    if bases.is_empty() {
+        return 0;
+    }
+    const INS: &[u32] = &[60, 62, 47, 63, 33, 91, 93, 45, 38, 59, 35, 34, 39, 61, 32, 10, 120, 97, 58, 49, 46,
+                          1, 0xFFFE, 0xE9, 0x1F600, 124, 40, 41, 42];
+    for _ in 0..count {
+        let mut t = bases.choose(&mut r).unwrap().clone();
+        let mut edits = vec![];
+        for _ in 0..r.gen_range(1..3) {
+            if t.is_empty() {
+                break;
+            }
+            let i = r.gen_range(0..t.len());
+            match r.gen_range(0..6) {
+                0 => {
+                    t.remove(i);
+                    edits.push("delete");
+                }
+                1 => {
+                    t.insert(i, *INS.choose(&mut r).unwrap());
+                    edits.push("insert");
+                }
+                2 => {
+                    t[i] = *INS.choose(&mut r).unwrap();
+                    edits.push("replace");
+                }
+                3 => {
+                    if i + 1 < t.len() {
+                        t.swap(i, i + 1);
+                    }
+                    edits.push("transpose");
+                }
+                4 => {
+                    let c = t[i];
+                    t.insert(i, c);
+                    edits.push("duplicate");
+                }
+                _ => {
+                    let j = (i + r.gen_range(1..8)).min(t.len());
+                    t.drain(i..j);
+                    edits.push("cut");
+                }
+            }
+        }
+        // parameter entities are outside what the specification models
+        writeln!(w, "{}", json!({"text": cp(&t), "edits": edits})).unwrap();
+    }
+    0
+}
